@@ -803,6 +803,12 @@ func executeC11Once(scn *Scenario) *RunResult {
 			if generated {
 				if c.Trio {
 					res.SweepCands = sweepCandidates(scn.Strat.Seed, c.Tasks, profiles, 400, true)
+				} else if c.Spec != nil && len(c.Spec.Keys) >= 65536 {
+					// subjects beyond 2^16 keys are rare (16 per quick tier): when
+					// the code under test synchronises in their read paths they get
+					// the double-park and second-preemption variants of every
+					// sampled (task, site, visit) as well
+					res.SweepCands = sweepCandidates(scn.Strat.Seed, c.Tasks, profiles, 160, true)
 				} else {
 					res.SweepCands = sweepCandidates(scn.Strat.Seed, c.Tasks, profiles, 36, false)
 				}
